@@ -58,7 +58,12 @@ def _run_case(draw, tier):
     sc = orc.si_scales(lay["xi"], lay["lam"], lay["d"], dev["lu"])
     # constant shift a0 (in field_units*length_units) such that the phase A_scale*a0*x winds by ~1..6 rad per xi-scale device
     a_unit = sc["Bc2"] * lay["xi"] / orc.FIELD[fu]
-    shift = [float(f"{draw(gen.rf(-1.2, 1.2)) * a_unit:.4g}"), float(f"{draw(gen.rf(-1.2, 1.2)) * a_unit:.4g}")]
+    # (occasionally much larger: a gauge origin far away from the device)
+    big = draw(st.sampled_from([1.0, 1.0, 10.0, 40.0, 100.0]))
+    if fld["kind"] == "ramp_gauge" and draw(st.integers(0, 2)) == 0:
+        # a slow sweep: the potential changes by a very small fraction per step (tiny next to a large constant shift)
+        fld = dict(fld, final=fld.get("initial", 0.0) + draw(st.sampled_from([1e-3, 1e-4, 2e-5])))
+    shift = [float(f"{draw(gen.rf(-1.2, 1.2)) * a_unit * big:.4g}"), float(f"{draw(gen.rf(-1.2, 1.2)) * a_unit * big:.4g}")]
     adaptive = draw(st.booleans())
     return dict(kind="run", device=dev, field=fld, shift=shift,
                 currents=draw(gen.currents(dev, cu, kinds=("dict", "callable"))),
@@ -155,7 +160,7 @@ def _frames_of(dev, opts_spec, spec, fld, psi_phase, keep):
 
     with sim.workdir():
         opts = build.make_options(opts_spec, dev, output_file="out.h5")
-        solver = build.make_solver(dev, opts, applied_vector_potential=build.make_vector_potential(fld, dev, opts.field_units),
+        solver = build.make_solver(dev, opts, applied_vector_potential=build.make_vector_potential(fld, dev, opts.field_units, opts.solve_time),
                                  terminal_currents=build.make_currents(spec["currents"]))
         if psi_phase is not None:
             solver.psi_init = solver.psi_init * np.exp(1j * psi_phase)
